@@ -1519,6 +1519,353 @@ fn mode_c10(seed: u64) {
 }
 
 
+// ================================================================ C19 (sessions part): configuration values honoured or refused, never a hang
+const MAX_RESULTS: usize = 10_000;       // more results than this from one call for a few dozen input bytes is unbounded output
+const BUDGET: usize = 64 << 20;          // live-heap budget of one call in the c19 / c03 modes
+fn to_msg(m: &Msg) -> Result<RtmpMessage, String> {
+    let p = MessagePayload { timestamp: RtmpTimestamp::new(m.ts), type_id: m.ty, message_stream_id: m.msid, data: Bytes::from(m.data.clone()) };
+    match guard("to_rtmp_message", || p.to_rtmp_message())? { Ok(x) => Ok(x), Err(e) => Err(format!("malformed message of type {}: {}", m.ty, e)) }
+}
+// the packets a session returned, through the reference decoder: Err(text) if a conformant peer cannot decode them
+fn ref_feed(rd: &mut RefDecoder, packets: &[Vec<u8>]) -> Result<Vec<RtmpMessage>, String> {
+    let mut out = vec![];
+    for (i, b) in packets.iter().enumerate() {
+        if b.is_empty() { return Err(format!("packet #{} is empty", i)); }
+        let v = rd.decode_all(b).map_err(|e| format!("packet #{} ({} bytes) is not decodable by a conformant peer: {}", i, b.len(), e))?;
+        if v.len() != 1 { return Err(format!("packet #{} decodes to {} messages", i, v.len())); }
+        out.push(to_msg(&v[0])?);
+    }
+    Ok(out)
+}
+fn s_packets(rs: Vec<ServerSessionResult>) -> (Vec<Vec<u8>>, Vec<ServerSessionEvent>) {
+    let mut p = vec![]; let mut e = vec![];
+    for r in rs { match r { ServerSessionResult::OutboundResponse(x) => p.push(x.bytes), ServerSessionResult::RaisedEvent(x) => e.push(x), _ => () } }
+    (p, e)
+}
+fn c_packets(rs: Vec<ClientSessionResult>) -> (Vec<Vec<u8>>, Vec<ClientSessionEvent>) {
+    let mut p = vec![]; let mut e = vec![];
+    for r in rs { match r { ClientSessionResult::OutboundResponse(x) => p.push(x.bytes), ClientSessionResult::RaisedEvent(x) => e.push(x), _ => () } }
+    (p, e)
+}
+fn c19_bad(desc: &str, what: String) -> ! { witness(format!("[c19] {}: {}", desc, what)) }
+fn valid_chunk(n: u32) -> bool { n >= 1 && n <= 0x7FFF_FFFF }
+fn strs(len: usize) -> String { "v".repeat(len) }
+fn c19_server_cfg(desc: &str, cfg: ServerSessionConfig) {
+    ctx(format!("c19 {}", desc));
+    let r = with_budget(BUDGET, || guard("ServerSession::new", || ServerSession::new(cfg.clone())));
+    let (mut sess, init) = match r {
+        Err(e) => c19_bad(desc, e),
+        Ok(Err(e)) => { if debug() { eprintln!("c19 {}: ServerSession::new -> Err({})", desc, e); } if valid_chunk(cfg.chunk_size) { c19_bad(desc, format!("ServerSession::new refused a configuration whose values are all legal: {}", e)); } return; }
+        Ok(Ok(x)) => x,
+    };
+    if !valid_chunk(cfg.chunk_size) { c19_bad(desc, format!("ServerSession::new accepted chunk_size {} (legal: 1..=2147483647)", cfg.chunk_size)); }
+    let mut rd = RefDecoder::new();
+    let (pk, _) = s_packets(init);
+    let msgs = match ref_feed(&mut rd, &pk) { Ok(m) => m, Err(e) => c19_bad(desc, format!("constructor packets: {}", e)) };
+    let has = |f: &dyn Fn(&RtmpMessage) -> bool| msgs.iter().any(|m| f(m));
+    if !has(&|m| matches!(m, RtmpMessage::SetChunkSize { size } if *size == cfg.chunk_size)) { c19_bad(desc, format!("chunk_size {} accepted but not announced: constructor sent {:?}", cfg.chunk_size, msgs.iter().map(cmsg).collect::<Vec<_>>())); }
+    if !has(&|m| matches!(m, RtmpMessage::WindowAcknowledgement { size } if *size == cfg.window_ack_size)) { c19_bad(desc, format!("window_ack_size {} accepted but not announced: constructor sent {:?}", cfg.window_ack_size, msgs.iter().map(cmsg).collect::<Vec<_>>())); }
+    if !has(&|m| matches!(m, RtmpMessage::SetPeerBandwidth { size, .. } if *size == cfg.peer_bandwidth)) { c19_bad(desc, format!("peer_bandwidth {} accepted but not announced: constructor sent {:?}", cfg.peer_bandwidth, msgs.iter().map(cmsg).collect::<Vec<_>>())); }
+    // the version string is used when a connection request is accepted: Err, or a decodable result that carries it unchanged
+    let mut p = Peer::new();
+    let b = p.cmd("connect", 1.0, connect_obj("live", true), &[], 0);
+    let rs = match with_budget(BUDGET, || guard("handle_input(connect)", || sess.handle_input(&b))) { Err(e) => c19_bad(desc, e), Ok(Err(e)) => c19_bad(desc, format!("connect refused: {}", e)), Ok(Ok(v)) => v };
+    let (_, ev) = s_packets(rs);
+    let id = match ev.iter().filter_map(sreq_id).next() { Some(i) => i, None => c19_bad(desc, "connect raised no request".into()) };
+    match with_budget(BUDGET, || guard("accept_request", || sess.accept_request(id))) {
+        Err(e) => c19_bad(desc, e),
+        Ok(Err(e)) => { if debug() { eprintln!("c19 {}: accept_request -> Err({})", desc, e); } if cfg.fms_version.len() <= 60_000 { c19_bad(desc, format!("accept_request failed although the version string has only {} bytes", cfg.fms_version.len())) } }
+        Ok(Ok(rs)) => {
+            let (pk, _) = s_packets(rs);
+            let msgs = match ref_feed(&mut rd, &pk) { Ok(m) => m, Err(e) => c19_bad(desc, format!("connect result (fms_version of {} bytes): {}", cfg.fms_version.len(), e)) };
+            let ok = msgs.iter().any(|m| matches!(m, RtmpMessage::Amf0Command { command_name, command_object: Amf0Value::Object(o), .. } if command_name == "_result" && matches!(o.get("fmsVer"), Some(Amf0Value::Utf8String(v)) if *v == cfg.fms_version)));
+            if !ok { c19_bad(desc, format!("the connect result does not carry the configured fms_version ({} bytes) unchanged", cfg.fms_version.len())); }
+            if debug() { eprintln!("c19 {}: honoured (constructor {} packets, connect result decodable)", desc, msgs.len()); }
+            // a 300-byte video goes out in chunks of the configured size
+            match with_budget(BUDGET, || guard("send_video_data", || sess.send_video_data(1, Bytes::from(payload(300, 1)), RtmpTimestamp::new(5), false))) {
+                Err(e) => c19_bad(desc, e), Ok(Err(e)) => c19_bad(desc, format!("send_video_data failed: {}", e)),
+                Ok(Ok(pk)) => match ref_feed(&mut rd, &[pk.bytes]) { Ok(m) => if !matches!(&m[0], RtmpMessage::VideoData { data } if data[..] == payload(300, 1)[..]) { c19_bad(desc, "video decoded differently".into()) }, Err(e) => c19_bad(desc, format!("video packet at chunk size {}: {}", cfg.chunk_size, e)) },
+            }
+        }
+    }
+}
+fn c19_client_cfg(desc: &str, cfg: ClientSessionConfig) {
+    ctx(format!("c19 {}", desc));
+    let (mut sess, init) = match with_budget(BUDGET, || guard("ClientSession::new", || ClientSession::new(cfg.clone()))) { Err(e) => c19_bad(desc, e), Ok(Err(_)) => return, Ok(Ok(x)) => x };
+    let mut rd = RefDecoder::new();
+    let (pk, _) = c_packets(init);
+    if let Err(e) = ref_feed(&mut rd, &pk) { c19_bad(desc, format!("constructor packets: {}", e)); }
+    let r = with_budget(BUDGET, || guard("request_connection", || sess.request_connection("live".to_string())));
+    match r {
+        Err(e) => c19_bad(desc, e),
+        Ok(Err(e)) => { if debug() { eprintln!("c19 {}: request_connection -> Err({})", desc, e); } let longest = std::cmp::max(cfg.flash_version.len(), cfg.tc_url.as_ref().map(|u| u.len()).unwrap_or(0)); if longest <= 60_000 { c19_bad(desc, format!("request_connection failed although the longest configured string has only {} bytes: {}", longest, e)); } return; }
+        Ok(Ok(res)) => {
+            let (pk, _) = c_packets(vec![res]);
+            let msgs = match ref_feed(&mut rd, &pk) { Ok(m) => m, Err(e) => c19_bad(desc, format!("connect command (flash_version of {} bytes): {}", cfg.flash_version.len(), e)) };
+            let ok = msgs.iter().any(|m| matches!(m, RtmpMessage::Amf0Command { command_name, command_object: Amf0Value::Object(o), .. } if command_name == "connect" && matches!(o.get("flashVer"), Some(Amf0Value::Utf8String(v)) if *v == cfg.flash_version)));
+            if !ok { c19_bad(desc, format!("the connect command does not carry the configured flash_version ({} bytes) unchanged", cfg.flash_version.len())); }
+        }
+    }
+    let mut p = Peer::new();
+    let b = p.cmd("_result", 1.0, A::Null, &[status("NetConnection.Connect.Success")], 0);
+    match with_budget(BUDGET, || guard("handle_input(connect result)", || sess.handle_input(&b))) {
+        Err(e) => c19_bad(desc, e),
+        Ok(Err(e)) => { if debug() { eprintln!("c19 {}: connect result -> Err({})", desc, e); } if valid_chunk(cfg.chunk_size) { c19_bad(desc, format!("the connect result was refused although every configured value is legal: {}", e)); } return; }
+        Ok(Ok(rs)) => {
+            if !valid_chunk(cfg.chunk_size) { c19_bad(desc, format!("chunk_size {} (legal: 1..=2147483647) was neither refused by ClientSession::new nor when it was applied on connect success", cfg.chunk_size)); }
+            let (pk, ev) = c_packets(rs);
+            if !ev.contains(&ClientSessionEvent::ConnectionRequestAccepted) { c19_bad(desc, format!("no accepted event: {:?}", ev.iter().map(cev).collect::<Vec<_>>())); }
+            let msgs = match ref_feed(&mut rd, &pk) { Ok(m) => m, Err(e) => c19_bad(desc, format!("packets on connect success: {}", e)) };
+            if !msgs.iter().any(|m| matches!(m, RtmpMessage::SetChunkSize { size } if *size == cfg.chunk_size)) { c19_bad(desc, format!("chunk_size {} accepted but not announced: {:?}", cfg.chunk_size, msgs.iter().map(cmsg).collect::<Vec<_>>())); }
+            if !msgs.iter().any(|m| matches!(m, RtmpMessage::WindowAcknowledgement { size } if *size == cfg.window_ack_size)) { c19_bad(desc, format!("window_ack_size {} accepted but not announced: {:?}", cfg.window_ack_size, msgs.iter().map(cmsg).collect::<Vec<_>>())); }
+        }
+    }
+    // publish a 300-byte video at the configured chunk size
+    let step = |what: &str, r: Result<Result<Vec<ClientSessionResult>, String>, String>, rd: &mut RefDecoder| -> Vec<RtmpMessage> {
+        match r { Err(e) => c19_bad(desc, e), Ok(Err(e)) => c19_bad(desc, format!("{} failed: {}", what, e)), Ok(Ok(rs)) => { if rs.len() > MAX_RESULTS { c19_bad(desc, format!("{} returned {} results", what, rs.len())); } let (pk, _) = c_packets(rs); match ref_feed(rd, &pk) { Ok(m) => m, Err(e) => c19_bad(desc, format!("{}: {}", what, e)) } } }
+    };
+    let r = with_budget(BUDGET, || guard("request_publishing", || sess.request_publishing("k".to_string(), PublishRequestType::Live).map(|x| vec![x]).map_err(|e| format!("{}", e)))); step("request_publishing", r, &mut rd);
+    let b = p.cmd("_result", 2.0, A::Null, &[A::N(1.0)], 0);
+    let r = with_budget(BUDGET, || guard("handle_input", || sess.handle_input(&b).map_err(|e| format!("{}", e)))); step("createStream result", r, &mut rd);
+    let b = p.cmd("onStatus", 0.0, A::Null, &[status("NetStream.Publish.Start")], 1);
+    let r = with_budget(BUDGET, || guard("handle_input", || sess.handle_input(&b).map_err(|e| format!("{}", e)))); step("Publish.Start", r, &mut rd);
+    let r = with_budget(BUDGET, || guard("publish_video_data", || sess.publish_video_data(Bytes::from(payload(300, 2)), RtmpTimestamp::new(9), false).map(|x| vec![x]).map_err(|e| format!("{}", e))));
+    let m = step("publish_video_data", r, &mut rd);
+    if !matches!(m.get(0), Some(RtmpMessage::VideoData { data }) if data[..] == payload(300, 2)[..]) { c19_bad(desc, format!("video packet at chunk size {} decodes differently", cfg.chunk_size)); }
+    if debug() { eprintln!("c19 {}: honoured (connect, publish, 300-byte video decodable)", desc); }
+}
+// the PEER announces an acknowledgement window of w, then more input calls follow (also empty ones)
+fn c19_peer_window(kind: &str, w: u32, cfg_window: u32) {
+    let desc = format!("{} session, peer announces WindowAcknowledgement({}){}", kind, w, if kind == "pair" { format!(" = a client session configured with window_ack_size {}", cfg_window) } else { String::new() });
+    ctx(format!("c19 {}", desc));
+    let mut dec = OutDec::new(); let mut p = Peer::new();
+    let mut sess = if kind == "client" { let (x, _) = match ClientSession::new(ClientSessionConfig::new()) { Ok(v) => v, Err(e) => c19_bad(&desc, format!("{}", e)) }; Either::C(x) }
+                   else { let (x, init) = match ServerSession::new(ServerSessionConfig::new()) { Ok(v) => v, Err(e) => c19_bad(&desc, format!("{}", e)) }; for r in init { if let ServerSessionResult::OutboundResponse(pk) = r { let _ = dec.feed(&pk.bytes); } } Either::S(x) };
+    let mut calls: Vec<(String, Vec<u8>)> = vec![("the window announcement".into(), p.wack(w)), ("an empty slice".into(), vec![]), ("a ping request".into(), p.ping(5)), ("an empty slice".into(), vec![]), ("one byte".into(), vec![]),
+        ("a 300-byte unknown message".into(), p.raw(0x55, 0, 0, payload(300, 1))), ("an empty slice".into(), vec![]), ("an acknowledgement".into(), p.ack(7)), ("a second announcement".into(), p.wack(w)), ("a ping request".into(), p.ping(6)), ("an empty slice".into(), vec![])];
+    // "one byte": the first byte of the next message, delivered alone
+    let next = calls[5].1.clone(); calls[4].1 = next[..1].to_vec(); calls[5].1 = next[1..].to_vec();
+    for (i, (what, b)) in calls.iter().enumerate() {
+        ctx(format!("c19 {}: input call #{} ({}, {} bytes)", desc, i, what, b.len()));
+        let r = with_budget(BUDGET, || match &mut sess {
+            Either::S(x) => guard("ServerSession::handle_input", || x.handle_input(b).map(|v| { let n = v.len(); (n, s_packets(v).0) }).map_err(|e| format!("{}", e))),
+            Either::C(x) => guard("ClientSession::handle_input", || x.handle_input(b).map(|v| { let n = v.len(); (n, c_packets(v).0) }).map_err(|e| format!("{}", e))) });
+        match r {
+            Err(e) => c19_bad(&desc, format!("input call #{} ({}): {}", i, what, e)),
+            Ok(Err(e)) => c19_bad(&desc, format!("input call #{} ({}) failed: {}", i, what, e)),
+            Ok(Ok((n, pk))) => { if n > MAX_RESULTS { c19_bad(&desc, format!("input call #{} ({}, {} bytes) returned {} results", i, what, b.len(), n)); }
+                                 for x in pk { if let Err(e) = dec.feed(&x) { c19_bad(&desc, format!("after input call #{} ({}): {}", i, what, e)); } } }
+        }
+    }
+}
+// a client session with the given window talks to a server session (connect, publish request, some media): every call must return
+fn c19_pair(window: u32) {
+    let desc = format!("client session (window_ack_size {}) talking to a default server session", window);
+    let mut ccfg = ClientSessionConfig::new(); ccfg.window_ack_size = window;
+    let (mut srv, sinit) = match ServerSession::new(ServerSessionConfig::new()) { Ok(v) => v, Err(e) => c19_bad(&desc, format!("{}", e)) };
+    let (mut cli, _) = match ClientSession::new(ccfg) { Ok(v) => v, Err(e) => c19_bad(&desc, format!("{}", e)) };
+    let mut to_client: Vec<u8> = s_packets(sinit).0.concat(); let mut to_server: Vec<u8> = vec![];
+    match guard("request_connection", || cli.request_connection("live".to_string())) { Ok(Ok(ClientSessionResult::OutboundResponse(p))) => to_server.extend(p.bytes), _ => c19_bad(&desc, "request_connection failed".into()) }
+    let mut requested = false; let mut published = false;
+    for round in 0..12 {
+        ctx(format!("c19 {}: round {} ({} bytes to the server, {} bytes to the client)", desc, round, to_server.len(), to_client.len()));
+        let inp = std::mem::take(&mut to_server);
+        let rs = match with_budget(BUDGET, || guard("ServerSession::handle_input", || srv.handle_input(&inp))) { Err(e) => c19_bad(&desc, format!("round {}: server {}", round, e)), Ok(Err(e)) => c19_bad(&desc, format!("round {}: server handle_input failed: {}", round, e)), Ok(Ok(v)) => v };
+        if rs.len() > MAX_RESULTS { c19_bad(&desc, format!("round {}: the server returned {} results for {} input bytes", round, rs.len(), inp.len())); }
+        let (pk, ev) = s_packets(rs); to_client.extend(pk.concat());
+        for e in ev { if let Some(id) = sreq_id(&e) { match with_budget(BUDGET, || guard("accept_request", || srv.accept_request(id))) { Ok(Ok(v)) => to_client.extend(s_packets(v).0.concat()), Ok(Err(e)) => c19_bad(&desc, format!("accept_request failed: {}", e)), Err(e) => c19_bad(&desc, e) } } }
+        let inp = std::mem::take(&mut to_client);
+        let rs = match with_budget(BUDGET, || guard("ClientSession::handle_input", || cli.handle_input(&inp))) { Err(e) => c19_bad(&desc, format!("round {}: client {}", round, e)), Ok(Err(e)) => c19_bad(&desc, format!("round {}: client handle_input failed: {}", round, e)), Ok(Ok(v)) => v };
+        if rs.len() > MAX_RESULTS { c19_bad(&desc, format!("round {}: the client returned {} results for {} input bytes", round, rs.len(), inp.len())); }
+        let (pk, ev) = c_packets(rs); to_server.extend(pk.concat());
+        for e in ev { match e {
+            ClientSessionEvent::ConnectionRequestAccepted if !requested => { requested = true; if let Ok(Ok(ClientSessionResult::OutboundResponse(p))) = guard("request_publishing", || cli.request_publishing("k".to_string(), PublishRequestType::Live)) { to_server.extend(p.bytes); } }
+            ClientSessionEvent::PublishRequestAccepted => published = true,
+            _ => () } }
+        if published { if let Ok(Ok(ClientSessionResult::OutboundResponse(p))) = guard("publish_video_data", || cli.publish_video_data(Bytes::from(payload(200, round as u8)), RtmpTimestamp::new(round * 40), false)) { to_server.extend(p.bytes); } }
+    }
+    if !published { c19_bad(&desc, "the conversation never reached the publishing state".into()); }
+}
+// the largest message: 16,777,215 payload bytes fit the 3-byte length field, one more must be refused (or arrive intact), at a chunk size above it
+fn c19_big_message() {
+    for &len in &[16_777_215usize, 16_777_216] {
+        let desc = format!("server session with chunk_size 2147483647, send_video_data of {} bytes", len);
+        ctx(format!("c19 {}", desc));
+        let mut cfg = ServerSessionConfig::new(); cfg.chunk_size = 0x7FFF_FFFF;
+        let (mut sess, init) = match guard("ServerSession::new", || ServerSession::new(cfg)) { Ok(Ok(x)) => x, Ok(Err(e)) => c19_bad(&desc, format!("{}", e)), Err(e) => c19_bad(&desc, e) };
+        let mut rd = RefDecoder::new();
+        if let Err(e) = ref_feed(&mut rd, &s_packets(init).0) { c19_bad(&desc, e); }
+        let data = Bytes::from(payload(len, 3));
+        match with_budget(256 << 20, || guard("send_video_data", || sess.send_video_data(1, data.clone(), RtmpTimestamp::new(1), false))) {
+            Err(e) => c19_bad(&desc, e),
+            Ok(Err(e)) => if len <= 16_777_215 { c19_bad(&desc, format!("refused although the payload fits the 24-bit length field: {}", e)) },
+            Ok(Ok(pk)) => match rd.decode_all(&pk.bytes) {
+                Ok(v) if v.len() == 1 && v[0].ty == 9 && v[0].msid == 1 && v[0].data[..] == data[..] => (),
+                Ok(v) => c19_bad(&desc, format!("accepted, but a conformant peer decodes {} message(s), the first with {} payload bytes", v.len(), v.get(0).map(|m| m.data.len()).unwrap_or(0))),
+                Err(e) => c19_bad(&desc, format!("accepted, but the packet ({} bytes) is not decodable by a conformant peer: {}", pk.bytes.len(), e)),
+            },
+        }
+    }
+}
+fn mode_c19(_seed: u64) {
+    c19_big_message();
+    let chunk_sizes = [0u32, 1, 2, 3, 4, 128, 4096, 0x7FFF_FFFF, 0x8000_0000, 0xFFFF_FFFF];
+    let sizes = [0u32, 1, 100, 2_500_000, 0x7FFF_FFFF, 0xFFFF_FFFF];
+    for &cs in &chunk_sizes {
+        let mut c = ServerSessionConfig::new(); c.chunk_size = cs; c19_server_cfg(&format!("ServerSessionConfig chunk_size {}", cs), c);
+        let mut c = ClientSessionConfig::new(); c.chunk_size = cs; c19_client_cfg(&format!("ClientSessionConfig chunk_size {}", cs), c);
+    }
+    for &v in &sizes {
+        for &cs in &[4096u32, 1] {
+            let mut c = ServerSessionConfig::new(); c.window_ack_size = v; c.chunk_size = cs; c19_server_cfg(&format!("ServerSessionConfig window_ack_size {} (chunk_size {})", v, cs), c);
+            let mut c = ServerSessionConfig::new(); c.peer_bandwidth = v; c.chunk_size = cs; c.send_on_bw_done_message_on_start = false; c19_server_cfg(&format!("ServerSessionConfig peer_bandwidth {} (chunk_size {}, no onBWDone)", v, cs), c);
+            let mut c = ClientSessionConfig::new(); c.window_ack_size = v; c.chunk_size = cs; c19_client_cfg(&format!("ClientSessionConfig window_ack_size {} (chunk_size {})", v, cs), c);
+            let mut c = ClientSessionConfig::new(); c.playback_buffer_length_ms = v; c.chunk_size = cs; c19_client_cfg(&format!("ClientSessionConfig playback_buffer_length_ms {} (chunk_size {})", v, cs), c);
+        }
+        c19_pair(v);
+    }
+    for &len in &[0usize, 1, 65_535, 65_536, 80_000] {
+        let mut c = ServerSessionConfig::new(); c.fms_version = strs(len); c19_server_cfg(&format!("ServerSessionConfig fms_version of {} bytes", len), c);
+        let mut c = ServerSessionConfig::new(); c.fms_version = strs(len); c.chunk_size = 128; c19_server_cfg(&format!("ServerSessionConfig fms_version of {} bytes (chunk_size 128)", len), c);
+        let mut c = ClientSessionConfig::new(); c.flash_version = strs(len); c19_client_cfg(&format!("ClientSessionConfig flash_version of {} bytes", len), c);
+        let mut c = ClientSessionConfig::new(); c.tc_url = Some(strs(len)); c19_client_cfg(&format!("ClientSessionConfig tc_url of {} bytes", len), c);
+    }
+    for kind in ["server", "client"] { for &w in &[0u32, 1, 2, 0x7FFF_FFFF, 0xFFFF_FFFF] { c19_peer_window(kind, w, 0); } }
+}
+
+// ================================================================ C03 (sessions part): malformed but well-chunked peer messages
+fn c03_cases() -> Vec<(String, u8, u32, Vec<u8>)> {
+    let mut v: Vec<(String, u8, u32, Vec<u8>)> = vec![];
+    for code in [5u16, 8, 9, 30, 33, 255, 256, 0xFFFF] { let mut b = code.to_be_bytes().to_vec(); b.extend_from_slice(&[0, 0, 0, 1]); v.push((format!("user control with undefined event type {}", code), 4, 0, b)); }
+    for n in 0..2usize { v.push((format!("user control body of {} bytes", n), 4, 0, vec![0; n])); }
+    v.push(("user control event 0 without a stream id".into(), 4, 0, vec![0, 0]));
+    v.push(("user control SetBufferLength with one field".into(), 4, 0, vec![0, 3, 0, 0, 0, 1]));
+    v.push(("user control ping request with a 2-byte timestamp".into(), 4, 0, vec![0, 6, 0, 1]));
+    v.push(("AMF0 command without values".into(), 20, 0, vec![]));
+    v.push(("AMF0 command with one value".into(), 20, 0, body(&[s("connect")])));
+    v.push(("AMF0 command with two values".into(), 20, 0, body(&[s("connect"), A::N(1.0)])));
+    v.push(("AMF0 command whose name is a number".into(), 20, 0, body(&[A::N(1.0), A::N(1.0), A::Null])));
+    v.push(("AMF0 command whose transaction id is a string".into(), 20, 0, body(&[s("connect"), s("x"), A::Null])));
+    v.push(("AMF0 command with a truncated string".into(), 20, 0, vec![2, 0, 50, b'c', b'o']));
+    v.push(("AMF0 command with an unknown marker".into(), 20, 0, vec![2, 0, 1, b'c', 0x0D, 0x77]));
+    v.push(("AMF0 command with an unterminated object".into(), 20, 0, { let mut b = body(&[s("connect"), A::N(1.0)]); b.extend_from_slice(&[3, 0, 3, b'a', b'p', b'p', 2, 0, 1, b'x']); b }));
+    v.push(("AMF3 command (type 17) with only the format byte".into(), 17, 0, vec![0]));
+    v.push(("AMF3 command (type 17) empty".into(), 17, 0, vec![]));
+    for lt in [3u8, 4, 255] { v.push((format!("set peer bandwidth with limit type {}", lt), 6, 0, vec![0, 0, 1, 0, lt])); }
+    for n in 0..5usize { v.push((format!("set peer bandwidth body of {} bytes", n), 6, 0, vec![0; n])); }
+    v.push(("@setDataFrame alone".into(), 18, 1, body(&[s("@setDataFrame")])));
+    v.push(("@setDataFrame with one following value".into(), 18, 1, body(&[s("@setDataFrame"), s("onMetaData")])));
+    v.push(("@setDataFrame with two non-object values".into(), 18, 1, body(&[s("@setDataFrame"), A::N(1.0), A::N(2.0)])));
+    v.push(("onMetaData alone".into(), 18, 1, body(&[s("onMetaData")])));
+    v.push(("data message without values".into(), 18, 1, vec![]));
+    v.push(("data message with a truncated number".into(), 18, 1, vec![0, 1, 2, 3]));
+    for name in ["connect", "createStream", "publish", "play", "closeStream", "deleteStream", "_result", "_error", "onStatus"] {
+        v.push((format!("{} with a null command object and no arguments", name), 20, 1, cmd_body(name, 2.0, A::Null, &[])));
+        v.push((format!("{} with wrongly typed arguments", name), 20, 1, cmd_body(name, 2.0, A::N(3.0), &[A::B(true), A::Null, o(&[("a", A::N(1.0))]), s("x")])));
+        v.push((format!("{} with string arguments", name), 20, 1, cmd_body(name, 2.0, s("obj"), &[s(""), s("")])));
+        v.push((format!("{} with a huge number argument", name), 20, 1, cmd_body(name, 1e300, A::Null, &[A::N(1e300), A::N(-1e300), A::N(f64::NAN)])));
+    }
+    v.push(("connect whose app is a number".into(), 20, 0, cmd_body("connect", 1.0, o(&[("app", A::N(1.0))]), &[])));
+    v.push(("onStatus whose code is a number".into(), 20, 1, cmd_body("onStatus", 0.0, A::Null, &[o(&[("code", A::N(1.0))])])));
+    for n in 0..4usize { for ty in [1u8, 2, 3, 5] { v.push((format!("type-{} body of {} bytes", ty, n), ty, 0, vec![0; n])); } }
+    v.push(("SetChunkSize(0)".into(), 1, 0, 0u32.to_be_bytes().to_vec()));
+    v.push(("SetChunkSize(0x80000000)".into(), 1, 0, 0x8000_0000u32.to_be_bytes().to_vec()));
+    v.push(("SetChunkSize(0xFFFFFFFF)".into(), 1, 0, 0xFFFF_FFFFu32.to_be_bytes().to_vec()));
+    v.push(("WindowAcknowledgement(0)".into(), 5, 0, 0u32.to_be_bytes().to_vec()));
+    // well-formed messages a session has nothing to do for: the call must return just the same
+    v.push(("a valid Abort message".into(), 2, 0, vec![0, 0, 0, 4]));
+    for lt in 0..3u8 { v.push((format!("a valid SetPeerBandwidth message (limit type {})", lt), 6, 0, vec![0, 0, 1, 0, lt])); }
+    v.push(("a valid Acknowledgement".into(), 3, 0, vec![0, 0, 0, 9]));
+    v.push(("a valid StreamEof user control message".into(), 4, 0, vec![0, 1, 0, 0, 0, 1]));
+    v.push(("a valid data message the sessions ignore".into(), 18, 1, body(&[s("|RtmpSampleAccess"), A::B(false), A::B(false)])));
+    v.push(("an unknown command".into(), 20, 1, cmd_body("FCPublish", 4.0, A::Null, &[s("k")])));
+    v.push(("a message of an unknown type without payload".into(), 0x55, 0, vec![]));
+    v
+}
+fn c03_session(kind: &str, state: usize, p: &mut Peer) -> Result<Either, String> {
+    if kind == "server" {
+        let (mut x, _) = guard("ServerSession::new", || ServerSession::new(ServerSessionConfig::new()))?.map_err(|e| format!("{}", e))?;
+        if state >= 1 {
+            let go = |b: Vec<u8>, x: &mut ServerSession| -> Result<(), String> {
+                let rs = guard("handle_input", || x.handle_input(&b))?.map_err(|e| format!("{}", e))?;
+                for r in rs { if let ServerSessionResult::RaisedEvent(e) = r { if let Some(id) = sreq_id(&e) { guard("accept_request", || x.accept_request(id))?.map_err(|e| format!("{}", e))?; } } }
+                Ok(())
+            };
+            go(p.cmd("connect", 1.0, connect_obj("live", false), &[], 0), &mut x)?;
+            go(p.cmd("createStream", 2.0, A::Null, &[], 0), &mut x)?;
+            go(if state == 1 { p.cmd("publish", 3.0, A::Null, &[s("k"), s("live")], 1) } else { p.cmd("play", 3.0, A::Null, &[s("k")], 1) }, &mut x)?;
+        }
+        Ok(Either::S(x))
+    } else {
+        let (mut x, _) = guard("ClientSession::new", || ClientSession::new(ClientSessionConfig::new()))?.map_err(|e| format!("{}", e))?;
+        if state >= 1 {
+            guard("request_connection", || x.request_connection("live".to_string()))?.map_err(|e| format!("{}", e))?;
+            let b = p.cmd("_result", 1.0, A::Null, &[], 0); guard("handle_input", || x.handle_input(&b))?.map_err(|e| format!("{}", e))?;
+            if state == 1 { guard("request_playback", || x.request_playback("k".to_string()))?.map_err(|e| format!("{}", e))?; } else { guard("request_publishing", || x.request_publishing("k".to_string(), PublishRequestType::Live))?.map_err(|e| format!("{}", e))?; }
+            let b = p.cmd("_result", 2.0, A::Null, &[A::N(1.0)], 0); guard("handle_input", || x.handle_input(&b))?.map_err(|e| format!("{}", e))?;
+            let b = p.cmd("onStatus", 0.0, A::Null, &[status(if state == 1 { "NetStream.Play.Start" } else { "NetStream.Publish.Start" })], 1); guard("handle_input", || x.handle_input(&b))?.map_err(|e| format!("{}", e))?;
+        }
+        Ok(Either::C(x))
+    }
+}
+// feed the pieces; every call must return (Ok or Err) with a bounded result list; stops at the first Err (the session gave up on the stream)
+fn c03_feed(desc: &str, sess: &mut Either, pieces: &[&[u8]]) {
+    for (i, b) in pieces.iter().enumerate() {
+        ctx(format!("c03 {}: input call #{} of {} ({} bytes: {:02x?})", desc, i, pieces.len(), b.len(), &b[..std::cmp::min(b.len(), 48)]));
+        let r = with_budget(BUDGET, || match sess {
+            Either::S(x) => guard("ServerSession::handle_input", || x.handle_input(b).map(|v| v.len()).map_err(|e| format!("{}", e))),
+            Either::C(x) => guard("ClientSession::handle_input", || x.handle_input(b).map(|v| v.len()).map_err(|e| format!("{}", e))) });
+        match r {
+            Err(e) => witness(format!("[c03] {}: input call #{} ({} bytes: {:02x?}): {}", desc, i, b.len(), &b[..std::cmp::min(b.len(), 64)], e)),
+            Ok(Err(_)) => return,
+            Ok(Ok(n)) => if n > MAX_RESULTS { witness(format!("[c03] {}: input call #{} ({} bytes) returned {} results", desc, i, b.len(), n)) },
+        }
+    }
+}
+fn mode_c03(seed: u64) {
+    let cases = c03_cases();
+    let states = |kind: &str, st: usize| -> &'static str { match (kind, st) { (_, 0) => "fresh", ("server", 1) => "publishing", ("server", _) => "playing", (_, 1) => "playing", _ => "publishing" } };
+    for kind in ["server", "client"] { for st in 0..3usize { for (name, ty, msid, data) in &cases {
+        for placement in 0..5 {
+            let mut p = Peer::new();
+            let mut sess = match c03_session(kind, st, &mut p) { Ok(x) => x, Err(e) => witness(format!("[c03] setting up a {} {} session failed: {}", states(kind, st), kind, e)) };
+            let bad = p.raw(*ty, 3, *msid, data.clone());
+            let ping = p.ping(7);
+            let media = if kind == "server" { p.audio(1, 9, payload(20, 1)) } else { p.ack(5) };
+            let desc = format!("{} {} session, {} (type {}, message stream {}, body {:02x?}) {}", states(kind, st), kind, name, ty, msid, &data[..std::cmp::min(data.len(), 40)],
+                ["alone in a call", "after a valid ping request in the same call", "followed by valid messages in the same call", "byte by byte", "alone, then an empty slice and valid messages in later calls"][placement]);
+            match placement {
+                0 => c03_feed(&desc, &mut sess, &[&bad]),
+                1 => { let mut b = ping.clone(); b.extend_from_slice(&bad); c03_feed(&desc, &mut sess, &[&b]) }
+                2 => { let mut b = bad.clone(); b.extend_from_slice(&ping); b.extend_from_slice(&media); c03_feed(&desc, &mut sess, &[&b]) }
+                3 => { let mut b = bad.clone(); b.extend_from_slice(&ping); c03_feed(&desc, &mut sess, &b.chunks(1).collect::<Vec<_>>()) }
+                _ => c03_feed(&desc, &mut sess, &[&bad, &[], &ping, &media, &[]]),
+            }
+        }
+    } } }
+    // pseudo-random damage to valid message bodies (seeded)
+    let mut rng = Rng(seed ^ 0xC03);
+    let valid: Vec<(u8, u32, Vec<u8>)> = vec![
+        (20, 0, cmd_body("connect", 1.0, connect_obj("live", true), &[])), (20, 1, cmd_body("publish", 3.0, A::Null, &[s("k"), s("live")])), (20, 1, cmd_body("play", 3.0, A::Null, &[s("k"), A::N(-2.0), A::N(-1.0), A::B(true)])),
+        (18, 1, body(&[s("@setDataFrame"), s("onMetaData"), meta_obj()])), (18, 1, body(&[s("onMetaData"), meta_obj()])), (20, 1, cmd_body("onStatus", 0.0, A::Null, &[status("NetStream.Play.Start")])),
+        (20, 0, cmd_body("_result", 1.0, o(&[("fmsVer", s("x"))]), &[status("NetConnection.Connect.Success")])), (4, 0, vec![0, 3, 0, 0, 0, 1, 0, 0, 7, 208]), (6, 0, vec![0, 38, 37, 160, 2]), (20, 0, cmd_body("deleteStream", 0.0, A::Null, &[A::N(1.0)])),
+    ];
+    for round in 0..1500 {
+        let (ty, msid, mut data) = valid[rng.below(valid.len() as u64) as usize].clone();
+        for _ in 0..1 + rng.below(3) { if data.is_empty() { break; } match rng.below(4) {
+            0 => { let i = rng.below(data.len() as u64) as usize; data[i] = rng.next() as u8; }
+            1 => { let n = rng.below(data.len() as u64) as usize; data.truncate(n); }
+            2 => { let i = rng.below(data.len() as u64) as usize; data[i] = rng.pick(&[0u8, 1, 2, 3, 5, 8, 9, 10, 0xFF]); }
+            _ => { let i = rng.below(data.len() as u64) as usize; data.insert(i, rng.pick(&[0u8, 3, 10, 0xFF])); } } }
+        let kind = if rng.below(2) == 0 { "server" } else { "client" }; let st = rng.below(3) as usize;
+        let mut p = Peer::new();
+        let mut sess = match c03_session(kind, st, &mut p) { Ok(x) => x, Err(e) => witness(format!("[c03] setting up a {} session failed: {}", kind, e)) };
+        let bad = p.raw(ty, 3, msid, data.clone()); let mut b = bad.clone(); b.extend(p.ping(7));
+        let desc = format!("{} {} session, damaged message #{} of seed {} (type {}, message stream {}, body {:02x?})", states(kind, st), kind, round, seed, ty, msid, &data[..std::cmp::min(data.len(), 60)]);
+        if rng.below(2) == 0 { c03_feed(&desc, &mut sess, &[&b]); } else { c03_feed(&desc, &mut sess, &b.chunks(1 + rng.below(9) as usize).collect::<Vec<_>>()); }
+    }
+}
+
 // safety nets for changed trees that never return or allocate without bound inside one call (catch_unwind cannot stop those):
 // an address-space limit (the allocation failure aborts the process: replay.py reports a death by signal as a finding) and a watchdog.
 #[cfg(target_os = "linux")]
